@@ -32,11 +32,12 @@ const (
 )
 
 type outcome struct {
-	Class  string
-	Detail string // error text, panic value, or canonical result for the differential
-	Stack  string
-	Origin string // third-party package the panic was raised in ("" = dapr/kit itself)
-	Dur    time.Duration
+	Class   string
+	Detail  string // error text, panic value, or canonical result for the differential
+	Stack   string
+	Origin  string // third-party package the panic was raised in ("" = dapr/kit itself)
+	Detail2 string // remark (e.g. slow first attempt)
+	Dur     time.Duration
 }
 
 // Case is what is stored in samples, violations and replay files.
@@ -73,6 +74,20 @@ func call(c Case) outcome {
 	if !ok {
 		return outcome{Class: clsSkip, Detail: "unknown entry point " + c.EP}
 	}
+	o := callWithin(e, c, e.Deadline)
+	if o.Class == clsTimeout {
+		// The machine may be starved (many checks run side by side): a hang must reproduce with six
+		// times the deadline before it is reported; a call that then returns was merely slow.
+		o2 := callWithin(e, c, 6*e.Deadline)
+		if o2.Class != clsTimeout {
+			o2.Detail2 = "first attempt exceeded " + e.Deadline.String() + " (machine load); returned on retry after " + o2.Dur.String()
+		}
+		return o2
+	}
+	return o
+}
+
+func callWithin(e *entryPoint, c Case, deadline time.Duration) outcome {
 	ch := make(chan outcome, 1)
 	t0 := time.Now()
 	go func() {
@@ -85,14 +100,14 @@ func call(c Case) outcome {
 		cls, det := e.Fn(c.Args)
 		ch <- outcome{Class: cls, Detail: det}
 	}()
-	timer := time.NewTimer(e.Deadline)
+	timer := time.NewTimer(deadline)
 	defer timer.Stop()
 	select {
 	case o := <-ch:
 		o.Dur = time.Since(t0)
 		return o
 	case <-timer.C:
-		return outcome{Class: clsTimeout, Detail: "no return within " + e.Deadline.String(), Dur: time.Since(t0)}
+		return outcome{Class: clsTimeout, Detail: "no return within " + deadline.String(), Dur: time.Since(t0)}
 	}
 }
 
@@ -227,6 +242,10 @@ func (r *runner) do(c Case) outcome {
 		return o
 	}
 	r.perEP[c.EP]++
+	if o.Detail2 != "" {
+		r.res.Hit("slow-retry:" + c.EP)
+		r.res.Note(c.EP + ": " + o.Detail2)
+	}
 	if n := r.perEP[c.EP]; (n <= 12 || n%499 == 0) && len(r.seeds[c.EP]) < 80 && c.Family != "scaling" {
 		r.seeds[c.EP] = append(r.seeds[c.EP], c)
 	}
